@@ -33,6 +33,18 @@
 //    in the last 20% of the simulated time before the failure / stall, i.e. the approach to
 //    the point the integrator declared impassable);
 //  * every run is bounded by a count of returned states (no wall clock anywhere).
+//
+// C11 judgement: drift / scale <= min(K acc^alpha, 5%) or else (two-sided) the drift of a rerun at
+// acc/100 must have shrunk 3x; violations are attributed (reference integrator, leave-one-out).
+// C21 judgement: norms recomputed from <t,q,u> on an invalidated copy vs getConstraintToleranceInUse().
+// Findings on the unchanged tree (2026-09, reported to the lead; see checks.d/sim.json):
+//   forced-step-size:AbstractIntegratorRep:{minstep,fixedstep,SemiExplicitEuler}  takeOneStep()/adjustStepSize() accept a
+//       step that cannot be shrunk although attemptDAEStep() skipped the projection (errNorm > 2^p acc) or did not converge;
+//   cpodes-internal-interpolant:CPodes{BDF,Adams}:{report,event-after,scheduled}  states interpolated by CPODES itself are
+//       handed back as trajectory states without projection;
+//   collapsing-step-size:CPodesAdams  Adams + any projection (quaternions suffice): step size collapses to 0, then StepFailed;
+//   NoSlip1D breaks energy / momentum conservation (consequence of the C07 known finding) -> left out of C11 (--noslip 1).
+// Debugging aids (never used by the registered runs): --trace 1, --integ k, --acc x, --dropF i, --dropC i, --direct 1, --noslip 1.
 #include "model.h"
 #include <array>
 using namespace SimTK;
@@ -869,14 +881,14 @@ static void checkC21(Ctx& c, long idx, Rng& r) {
         //    or the integrator is the fixed-step SemiExplicitEuler: AbstractIntegratorRep accepts a step it could not
         //    shrink, converged / projected or not;
         //  * CPodes hands back a state that CPODES itself interpolated (report time in normal mode, tHigh after a root
-        //    return) and that is returned as a non-interpolated trajectory state;
+        //    return, scheduled-event time) and that is returned as a non-interpolated trajectory state;
         //  * CPodes/Adams step sizes collapsing (< 1e-6) on a model that needs projection.
-        const bool cpInterp = ikIsCPodes(integ) && !interpolated && (kind == SK_Report || kind == SK_EventAfter);
+        const bool cpInterp = ikIsCPodes(integ) && !interpolated && (kind == SK_Report || kind == SK_EventAfter || kind == SK_Scheduled);
         const bool collapsing = integ == IK_CPAdams && ig.getPreviousStepSizeTaken() < 1e-6;
         auto keyOf = [&](const char* cls) {
             if (integ == IK_SEE) return std::string("forced-step-size:AbstractIntegratorRep:SemiExplicitEuler");
-            if (o.stepMode != 0) return std::string("forced-step-size:") + (ikIsCPodes(integ) ? "CPodes" : "AbstractIntegratorRep") + modeTag;
             if (cpInterp) return std::string("cpodes-internal-interpolant:") + in + ":" + skName(kind);
+            if (o.stepMode != 0) return std::string("forced-step-size:") + (ikIsCPodes(integ) ? "CPodes" : "AbstractIntegratorRep") + modeTag;
             if (collapsing) return std::string("collapsing-step-size:CPodesAdams");
             return std::string(cls) + ":" + in + ":" + skName(kind);
         };
@@ -930,8 +942,11 @@ static void checkC21(Ctx& c, long idx, Rng& r) {
 int main(int argc, char** argv) {
     Args a = parseArgs(argc, argv);
     Ctx c(a);
-    if (a.prop == "C11") return runCases(c, [&](long i, Rng& r) { checkC11(c, i, r); });
-    if (a.prop == "C21") return runCases(c, [&](long i, Rng& r) { checkC21(c, i, r); });
+    // --stride S: the index that drives the deterministic cycling (integrator, family, option cells) is i*S + worker
+    // instead of i, so that a run of very few cases (the ASan slice) still spreads over the cells.
+    const long stride = a.getInt("stride", 1), off = stride > 1 ? a.worker : 0;
+    if (a.prop == "C11") return runCases(c, [&](long i, Rng& r) { checkC11(c, i * stride + off, r); });
+    if (a.prop == "C21") return runCases(c, [&](long i, Rng& r) { checkC21(c, i * stride + off, r); });
     fprintf(stderr, "mon_sim: unknown --prop %s\n", a.prop.c_str());
     return 2;
 }
